@@ -125,6 +125,13 @@ type Case struct {
 	TLS bool `json:"tls,omitempty"`
 	// Small: use the mux with the 2 KiB receive limit (mounted and bare)
 	Small bool `json:"small_receive_limit,omitempty"`
+	// Reuse: the very same MuxHandleOption value (built once from one
+	// caller-owned slice) was already used for this many earlier NewServer
+	// calls; the server under test is the last one built with it.
+	Reuse int `json:"servers_built_earlier_with_the_same_option_value,omitempty"`
+	// LateReg: NewServer is given a mux that serves nothing yet; the
+	// service is registered on that mux afterwards, then the request is sent
+	LateReg bool `json:"service_registered_after_newserver,omitempty"`
 }
 
 func chunkJSON(id string) []byte { return []byte(fmt.Sprintf(`{"id":%q,"seq":3,"text":"t"}`, id)) }
@@ -343,8 +350,12 @@ func newEnv() (*env, error) {
 func exec(r *mon.Run, e *env, c *Case) {
 	var extraSeen []string
 	var opts []larking.ServerOption
+	var callerPatterns []string
 	if c.Patterns != nil {
-		opts = append(opts, larking.MuxHandleOption(c.Patterns...))
+		// the caller's own slice, with spare capacity like a slice built
+		// with append has
+		callerPatterns = append(make([]string, 0, len(c.Patterns)+2), c.Patterns...)
+		opts = append(opts, larking.MuxHandleOption(callerPatterns...))
 	}
 	eff := c.Patterns
 	if len(eff) == 0 {
@@ -370,6 +381,26 @@ func exec(r *mon.Run, e *env, c *Case) {
 	if c.Small {
 		bareMux, refMux = e.small, e.refSmall
 	}
+	var lateMux *larking.Mux
+	if c.LateReg {
+		reg, rerr := vschema.Registry(e.std.FD)
+		if rerr == nil {
+			lateMux, rerr = larking.NewMux(larking.FilesOption(reg))
+		}
+		if rerr != nil {
+			r.Inconclusive("late-registration mux: " + rerr.Error())
+			return
+		}
+		bareMux = lateMux
+	}
+	for k := 0; k < c.Reuse; k++ {
+		// earlier servers built from the same option values
+		var e0 error
+		if pi := mon.Catch(func() { _, e0 = larking.NewServer(bareMux, opts...) }); pi != nil || e0 != nil {
+			r.Count("earlier_server_constructions_failed_left_to_the_last_one", 1)
+		}
+		r.Count("earlier_servers_built_with_the_same_option_value", 1)
+	}
 	if pi := mon.Catch(func() { hs, err = larking.NewServer(bareMux, opts...) }); pi != nil {
 		r.Violate(pi.Key(), "NewServer panicked for patterns "+fmt.Sprint(c.Patterns), c)
 		return
@@ -379,6 +410,16 @@ func exec(r *mon.Run, e *env, c *Case) {
 		return
 	}
 	r.Eval(1)
+	if callerPatterns != nil && fmt.Sprint(callerPatterns) != fmt.Sprint(c.Patterns) {
+		r.Violate("option-rewrote-the-callers-pattern-list", fmt.Sprintf("patterns handed to MuxHandleOption %q read %q after %d NewServer call(s)", c.Patterns, callerPatterns, c.Reuse+1), c)
+	}
+	if lateMux != nil {
+		if rerr := larking.VerifRegisterService(lateMux, vschema.ServiceDesc(e.std.SD, impl{&e.calls}), struct{}{}); rerr != nil {
+			r.Inconclusive("late registration refused: " + rerr.Error())
+			return
+		}
+		r.Count("services_registered_after_newserver", 1)
+	}
 	before := atomic.LoadInt64(&e.calls)
 	got := wire.Serve(hs.Handler, c.Req.build(c.URLPath))
 	mid := atomic.LoadInt64(&e.calls)
@@ -459,7 +500,7 @@ func exec(r *mon.Run, e *env, c *Case) {
 	want := wire.Serve(refMux, c.Req.build(strings.TrimPrefix(c.URLPath, pre)))
 	r.Count("request_pairs", 1)
 	if d := viewOf(got).diff(viewOf(want)); d != "" {
-		r.Violate("mounted-differs-from-bare:"+c.Req.Kind+":"+strings.Fields(d)[0], fmt.Sprintf("%s %s under %q vs bare %s: %s", c.Req.Verb, c.URLPath, pre, strings.TrimPrefix(c.URLPath, pre), d), c)
+		r.Violate("mounted-differs-from-bare:"+c.Req.Kind+":"+strings.Fields(d)[0]+lifeClass(c), fmt.Sprintf("%s %s under %q vs bare %s: %s", c.Req.Verb, c.URLPath, pre, strings.TrimPrefix(c.URLPath, pre), d), c)
 		return
 	}
 	cls := "root"
@@ -470,6 +511,18 @@ func exec(r *mon.Run, e *env, c *Case) {
 }
 
 // decodedPath is the URL path a handler sees for the case's request.
+// lifeClass names the life-cycle class of a case in finding keys.
+func lifeClass(c *Case) string {
+	k := ""
+	if c.Reuse > 0 {
+		k += ":option-value-used-for-an-earlier-server"
+	}
+	if c.LateReg {
+		k += ":service-registered-after-newserver"
+	}
+	return k
+}
+
 func decodedPath(c *Case) string {
 	if c.Req.Escaped {
 		if u, err := url.PathUnescape(c.URLPath); err == nil {
@@ -549,7 +602,7 @@ func min(a, b int) int {
 
 // Run is the C20 check.
 func Run(r *mon.Run) {
-	r.Rule = "all mount-pattern sets over {/, /api, /api/, /twirp, /a/b, /a, /a/b/c/} that net/http accepts x extra handlers on disjoint patterns x request table (transcoding GET/POST/PATCH with JSON and protobuf bodies, query strings, 404s, verbs, client/server streams, Twirp-style implicit bindings, gRPC unary/bidi/unknown method, gRPC-web and gRPC-web-text, successes and failures) x every configured prefix and some unconfigured ones; served in-process through NewServer(...).Handler and compared (status, all headers, trailers, body) with the bare Mux serving the stripped path; plus a real h2c listener lane with a grpc-go client. distinct = (prefix depth, protocol, status, #patterns)"
+	r.Rule = "all mount-pattern sets over {/, /api, /api/, /twirp, /a/b, /a, /a/b/c/} that net/http accepts x extra handlers on disjoint patterns x request table (transcoding GET/POST/PATCH with JSON and protobuf bodies, query strings, 404s, verbs, client/server streams, Twirp-style implicit bindings, gRPC unary/bidi/unknown method, gRPC-web and gRPC-web-text, successes and failures) x every configured prefix and some unconfigured ones; life-cycle classes: one MuxHandleOption value (one caller-owned slice) handed to 2-4 NewServer calls with the last server under test and the caller's slice compared afterwards, and a service registered on the mux after NewServer; served in-process through NewServer(...).Handler and compared (status, all headers, trailers, body) with the bare Mux serving the stripped path; plus a real h2c listener lane with a grpc-go client. distinct = (prefix depth, protocol, status, #patterns)"
 	r.Floor = 20
 	e, err := newEnv()
 	if err != nil {
@@ -723,6 +776,28 @@ func Run(r *mon.Run) {
 	}
 	// the default mount: no MuxHandleOption at all (nil), the option without
 	// patterns, the option with an empty list (a filtered configuration)
+	// life cycle: (a) one MuxHandleOption value built once and handed to
+	// several NewServer calls (a plaintext and a TLS listener, a restart):
+	// every server built from it mounts the same prefixes; (b) a service
+	// registered after NewServer is served under every prefix like on the
+	// bare mux
+	for si, set := range [][]string{{"/"}, {"/api"}, {"/api/"}, {"/", "/api/"}, {"/", "/api", "/twirp"}, {"/a/b", "/a/b/c/"}, {"/api", "/api/"[:4] + "2/"}} {
+		for qi, q := range reqs {
+			if !r.Thorough() && (qi+si)%3 != 0 {
+				continue
+			}
+			for pi, p := range set {
+				pre := strings.TrimSuffix(p, "/")
+				tlsNow = (qi+pi)%2 == 1
+				exec(r, e, &Case{Patterns: set, URLPath: pre + q.Path, Req: q, Reuse: 1 + (qi+si+pi)%3})
+				tlsNow = false
+				exec(r, e, &Case{Patterns: set, URLPath: pre + q.Path, Req: q, LateReg: true})
+				if (qi+pi)%4 == 0 {
+					exec(r, e, &Case{Patterns: set, URLPath: pre + q.Path, Req: q, LateReg: true, Reuse: 1})
+				}
+			}
+		}
+	}
 	for _, pats := range [][]string{nil, {}, strings.Fields("")} {
 		for _, q := range reqs {
 			if !r.Thorough() && rng.Intn(2) != 0 {
